@@ -128,6 +128,8 @@ type stlRun struct {
 	Box       bool   `json:"box,omitempty"`
 	Color     int    `json:"color"` // teletext display standards: 0..7, -1 none
 	DoubleH   bool   `json:"double_height,omitempty"`
+	// Recode: the run is introduced by a style code that repeats the state already in force (read direction, open subtitling)
+	Recode bool `json:"recode,omitempty"`
 }
 
 type stlCue struct {
@@ -252,6 +254,17 @@ func renderSTLRow(runs []stlRun, teletext, spaceAround bool) ([]byte, bool) {
 		if r.Box != bx {
 			out = append(out, map[bool]byte{true: 0x84, false: 0x85}[r.Box])
 			bx = r.Box
+		}
+		if r.Recode && i > 0 {
+			// one more code that changes nothing: runs are split at codes, not at changes
+			switch len(r.Text) % 3 {
+			case 0:
+				out = append(out, map[bool]byte{true: 0x80, false: 0x81}[it])
+			case 1:
+				out = append(out, map[bool]byte{true: 0x82, false: 0x83}[un])
+			default:
+				out = append(out, map[bool]byte{true: 0x84, false: 0x85}[bx])
+			}
 		}
 		if spaceAround && i > 0 {
 			out = append(out, ' ')
@@ -427,7 +440,7 @@ func normSTLRows(rows [][]stlRun, teletext bool) [][]stlRun {
 			if !teletext {
 				r.Color, r.DoubleH = -1, false
 			}
-			if n := len(nr); n > 0 {
+			if n := len(nr); n > 0 && !r.Recode {
 				p := nr[n-1]
 				if p.Italic == r.Italic && p.Underline == r.Underline && p.Box == r.Box && p.Color == r.Color && p.DoubleH == r.DoubleH {
 					nr[n-1].Text = p.Text + " " + r.Text
@@ -458,6 +471,22 @@ func rowsText(rows [][]stlRun) string {
 // diffSTLCues compares cues; inter-run blanks are not part of the denotation
 // (runs are compared with white space removed).
 func diffSTLRows(want, got [][]stlRun, teletext bool) string {
+	for _, row := range want {
+		for k, r := range row {
+			if r.Recode && k > 0 {
+				// the document splits a row with a code that changes no attribute: the split itself is observable
+				got = append([][]stlRun(nil), got...)
+				for i := range got {
+					got[i] = append([]stlRun(nil), got[i]...)
+					for j := range got[i] {
+						got[i][j].Recode = j > 0 && strings.TrimSpace(got[i][j].Text) != ""
+					}
+				}
+				goto norm
+			}
+		}
+	}
+norm:
 	w, g := normSTLRows(want, teletext), normSTLRows(got, teletext)
 	if len(w) != len(g) {
 		return fmt.Sprintf("%d rows %+v, expected %d rows %+v", len(g), g, len(w), w)
@@ -783,6 +812,22 @@ func genSTLDoc(t *rapid.T, avoidKnown bool) stlDoc {
 		d.Cues = append(d.Cues, c)
 	}
 	return d
+}
+
+// addRecodes marks some non-first runs of open-subtitling rows as introduced by a redundant style code (read direction only).
+func addRecodes(t *rapid.T, d *stlDoc) {
+	if d.GSI.DSC != "0" {
+		return
+	}
+	for ci := range d.Cues {
+		for ri := range d.Cues[ci].Rows {
+			for k := range d.Cues[ci].Rows[ri] {
+				if k > 0 && rapid.IntRange(0, 3).Draw(t, "recode") == 0 {
+					d.Cues[ci].Rows[ri][k].Recode = true
+				}
+			}
+		}
+	}
 }
 
 // toSubtitlesSTL builds a cue list for the write direction. meta: "stl" (STL metadata present), "nil", "inherited" (metadata of another format).
